@@ -69,3 +69,114 @@ Example C09_nonvacuous :
   tok_run 100 m [TChange [120]; TDot 2; TExec 0 109; TExec 2 64]%N
   = Some [120; 120; 120; 119; 120; 114; 90; 119; 114; 90; 114; 90; 119; 114; 90; 114; 90]%N.
 Proof. vm_compute. reflexivity. Qed.
+
+(* ====================================================================================================== *)
+(* The same statements with NO interpreter left abstract: keys are the raw bytes of a vi session, the   *)
+(* interpreter is ViKeys.vi_exec = the tokenizer of the vi key grammar (coq/ViKeys.v, mirror of vi(),   *)
+(* vi_prefix, vc_motion, vi_motion, vc_insert / led_line of /repo) followed by ViDefs.exec1 (C08) on the *)
+(* state (text, cursor, registers).  [vis] = that state (None = a key outside the modelled command set   *)
+(* was met) + the `static int reg` of vc_execute.                                                        *)
+(* ====================================================================================================== *)
+From NV Require Import Bytes MotDefs RegDefs ViDefs ViKeys ViKeysProps RepeatVi.
+
+(* (a) + (b) the tokenizer consumes a non-empty PREFIX of the pending keys and never looks beyond it:
+   the same prefix followed by anything else is the same command (so a recorded command is read as that
+   one command again wherever it is replayed) *)
+Theorem C09_tokenizer_prefix_local : forall s c rest, next_command s = Some (c, rest) ->
+  exists pre, s = pre ++ rest /\ 1 <= length pre /\ forall t, next_command (pre ++ t) = Some (c, t).
+Proof. exact next_command_local. Qed.
+Print Assumptions C09_tokenizer_prefix_local.
+
+(* (b) the interpreter reads at least one and at most all pending keys, and its result does not depend on
+   the keys behind the ones it consumed *)
+Theorem C09_vi_exec_prefix_consuming : forall rows v s v' k a, vi_exec rows v s = (v', k, a) ->
+  k <= length s /\ (s <> [] -> 1 <= k) /\
+  (vi_est v' <> None -> forall t, vi_exec rows v (firstn k s ++ t) = (v', k, a)).
+Proof.
+  intros rows v s v' k a H. destruct (vi_exec_bound _ _ _ _ _ _ H) as [A B]. split; [exact A|]. split; [exact B|].
+  intros N t. now apply vi_exec_local.
+Qed.
+Print Assumptions C09_vi_exec_prefix_consuming.
+
+(* (b) syntax-directed consumption: the keys of one command are consumed as exactly that command in EVERY
+   editor state and context -- unless it is a `c` whose motion fails in that state (next theorem) *)
+Theorem C09_vi_exec_syntax_directed : forall rows v e pre c t, vi_est v = Some e -> next_command pre = Some (c, []) ->
+  failing_change rows e c = false ->
+  vi_exec rows v (pre ++ t) = (fst (apply_cmd rows v e c), length pre, snd (apply_cmd rows v e c)).
+Proof. exact vi_exec_syntax_directed. Qed.
+Print Assumptions C09_vi_exec_syntax_directed.
+
+(* (b) a program without `.` and `@` whose `c` motions all succeed, run through the loop of vi() on the
+   input queue, ends exactly as ViDefs.exec folded over its tokenisation *)
+Theorem C09_run_is_exec_vi : forall rows fuel keys ks cs e (s : st N vis) lr n,
+  tokens fuel keys = Some ks -> cmds_of ks = Some cs -> changes_ok rows cs e = true ->
+  stream (q s) = keys -> ed s = mk_vis (Some e) lr -> length keys <= n ->
+  InputQueue.run (vi_exec rows) n s = Some (mk_vis (exec rows cs e) lr).
+Proof. exact run_is_exec. Qed.
+Print Assumptions C09_run_is_exec_vi.
+
+(* (c) the exception, as vc_motion behaves: after `c` + a motion that fails in the current state only the
+   head (register, counts, c, motion) is consumed and recorded; the text typed after it is still in the
+   queue and runs as commands *)
+Theorem C09_failing_change_vi : forall rows (s : st N vis) e y a1 a2 t hd rest,
+  vi_est (ed s) = Some e -> stream (q s) = hd ++ rest -> scan P0 hd = Some (HChange y a1 a2 t, []) ->
+  target_fails rows e a1 a2 t = true -> S (length hd) < REPSZ -> length hd <= ICMD ->
+  rep (InputQueue.step (vi_exec rows) s) = hd /\ stream (q (InputQueue.step (vi_exec rows) s)) = rest /\
+  ed (InputQueue.step (vi_exec rows) s) = mk_vis (exec1 rows (COp y a1 Oc a2 t []) e) (vi_lastreg (ed s)).
+Proof. exact record_failing_change_vi. Qed.
+Print Assumptions C09_failing_change_vi.
+
+(* after a command of the repeatable set the repeat buffer holds exactly the keys of that command *)
+Theorem C09_record_faithful_vi : forall rows (s : st N vis) e c pre rest,
+  vi_est (ed s) = Some e -> stream (q s) = pre ++ rest -> next_command pre = Some (c, []) ->
+  is_change c = true -> failing_change rows e c = false -> S (length pre) < REPSZ -> length pre <= ICMD ->
+  rep (InputQueue.step (vi_exec rows) s) = pre /\ ed (InputQueue.step (vi_exec rows) s) = fst (apply_cmd rows (ed s) e c) /\
+  stream (q (InputQueue.step (vi_exec rows) s)) = rest.
+Proof. exact record_vi. Qed.
+Print Assumptions C09_record_faithful_vi.
+
+(* `N.` met in ANY state of the queue (typed at the terminal or inside a running macro), no push clipped:
+   the session ends in the same state (text, cursor, registers) as if the recorded keys had been typed
+   max(1,N) times in its place *)
+Theorem C09_dot_is_retyping_vi : forall rows (s : st N vis) e n pre rest fuel r,
+  vi_est (ed s) = Some e -> stream (q s) = pre ++ rest -> next_command pre = Some (KDot n, []) ->
+  fits (vi_exec rows) s = true -> InputQueue.run (vi_exec rows) fuel (InputQueue.step (vi_exec rows) s) = Some r ->
+  InputQueue.run (vi_exec rows) fuel (typed_at (rpt N (Nat.max 1 (cnt_of n)) (rep s) ++ rest) (rep s)
+                                    (mk_vis (Some (nop rows e)) (vi_lastreg (ed s)))) = Some r.
+Proof. exact dot_is_retyping_vi. Qed.
+Print Assumptions C09_dot_is_retyping_vi.
+
+(* `N@x` (x named, or the last executed register for @@): as if the register's contents had been typed max(1,N) times *)
+Theorem C09_exec_is_typing_vi : forall rows (s : st N vis) e n r0 x txt ln pre rest fuel r,
+  vi_est (ed s) = Some e -> stream (q s) = pre ++ rest -> next_command pre = Some (KExec n r0, []) ->
+  (if (r0 =? 64)%N then vi_lastreg (ed s) else Some r0) = Some x -> reg_get (s_regs e) x = Some (txt, ln) ->
+  fits (vi_exec rows) s = true -> InputQueue.run (vi_exec rows) fuel (InputQueue.step (vi_exec rows) s) = Some r ->
+  InputQueue.run (vi_exec rows) fuel (typed_at (rpt N (Nat.max 1 (cnt_of n)) txt ++ rest) (rep s) (mk_vis (Some (nop rows e)) (Some x))) = Some r.
+Proof. exact exec_is_typing_vi. Qed.
+Print Assumptions C09_exec_is_typing_vi.
+
+(* the property as typed: a change command (any prefix, count, text) followed by `N.` = that command's
+   keystrokes typed 1 + max(1,N) times *)
+Theorem C09_change_then_dot_vi : forall rows (s : st N vis) e e1 c pre n dot rest fuel r,
+  vi_est (ed s) = Some e -> stream (q s) = pre ++ dot ++ rest ->
+  next_command pre = Some (c, []) -> is_change c = true -> failing_change rows e c = false ->
+  S (length pre) < REPSZ -> length pre <= ICMD ->
+  vi_est (fst (apply_cmd rows (ed s) e c)) = Some e1 ->
+  next_command dot = Some (KDot n, []) ->
+  fits (vi_exec rows) (InputQueue.step (vi_exec rows) s) = true ->
+  InputQueue.run (vi_exec rows) fuel (InputQueue.step (vi_exec rows) (InputQueue.step (vi_exec rows) s)) = Some r ->
+  InputQueue.run (vi_exec rows) fuel (typed_at (rpt N (Nat.max 1 (cnt_of n)) pre ++ rest) pre
+        (mk_vis (Some (nop rows e1)) (vi_lastreg (fst (apply_cmd rows (ed s) e c))))) = Some r.
+Proof. exact change_then_dot_vi. Qed.
+Print Assumptions C09_change_then_dot_vi.
+
+(* non-vacuity on raw keys: a file of two lines, the second is xw; the keys j, yank-to-end into register a, k
+   load register a with xw; then 2dw into register b, the dot command, at-a, at-at: the session equals the
+   retyped one (2dw twice, then xw xw), and both stay inside the model *)
+Example C09_vi_nonvacuous :
+  let file := buf_of_bytes [97;98;32;99;100;32;101;102;32;103;104;32;105;32;106;32;107;10;120;119;10]%N in
+  let show := fun o => match o with Some v => match vi_est v with Some e => Some (s_buf e, v_row (s_vs e), v_off (s_vs e)) | None => None end | None => None end in
+  show (vi_session 23 100 file [106;34;97;121;36;107; 34;98;50;100;119; 46; 64;97; 64;64]%N) =
+  show (vi_session 23 100 file [106;34;97;121;36;107; 34;98;50;100;119; 34;98;50;100;119; 120;119; 120;119]%N) /\
+  show (vi_session 23 100 file [106;34;97;121;36;107; 34;98;50;100;119; 46; 64;97; 64;64]%N) <> None.
+Proof. vm_compute. split; [reflexivity|discriminate]. Qed.
